@@ -336,6 +336,37 @@ def reachable_functions(repo, start, limit=6):
     return seen
 
 
+def config_mutators(repo, s):
+    """Methods of the scheme's configuration class that store into the configuration object and are called from somewhere
+    else than the construction of that object (`__init__`, `_parse_config`, `_load_*`): [(method, store, caller, call)].
+    Call sites are matched by attribute name within the scheme's own modules and the interface modules."""
+    out = []
+    if s.config_cls is None:
+        return out
+    building = lambda f: f.name in ("__init__", "_parse_config") or f.name.startswith("_load_")  # noqa: E731
+    for name, m in s.config_cls.methods.items():
+        if building(m) or (name.startswith("__") and name.endswith("__")):
+            continue
+        stores = [st for st in ast.walk(m.node) if isinstance(st, (ast.Assign, ast.AugAssign, ast.AnnAssign)) and any(
+            isinstance(t, ast.Attribute) and isinstance(t.value, ast.Name) and t.value.id == m.params[0]
+            for t in (st.targets if isinstance(st, ast.Assign) else [st.target]))] if m.params else []
+        stores += [c for c in ast.walk(m.node) if isinstance(c, ast.Call) and dotted(c.func) in ("setattr", "object.__setattr__")
+                   and c.args and isinstance(c.args[0], ast.Name) and m.params and c.args[0].id == m.params[0]]
+        if not stores:
+            continue
+        pkg = s.cls.module.rel.rsplit("/", 1)[0] + "/"
+        for rel, mod in repo.modules.items():
+            if not (rel.startswith(pkg) or rel.startswith("schemes/interface/")):
+                continue
+            for f in mod.all_functions():
+                if f.cls is s.config_cls and building(f):
+                    continue
+                for c in ast.walk(f.node):
+                    if isinstance(c, ast.Call) and isinstance(c.func, ast.Attribute) and c.func.attr == name and f.key != m.key:
+                        out.append((m, stores[0], f, c))
+    return out
+
+
 def check(repo):
     r1 = Rule("R7.1", "no mutation of an object reachable from a parameter or a module global")
     r2 = Rule("R7.2", "no hidden state: algorithms do not store into self, globals or memoisation caches")
@@ -386,6 +417,12 @@ def check(repo):
                     r2.fail_fn(fi, fi.node, "memoised %s" % fi.name, "%s is memoised (%s): results depend on earlier calls" % (fi.qual, d))
             if any(isinstance(st, (ast.Global, ast.Nonlocal)) for st in ast.walk(fi.node)) and fi.module.rel.startswith("schemes/"):
                 r2.fail_fn(fi, fi.node, "global statement in %s" % fi.name, "%s rebinds a module global" % fi.qual)
+        # the configuration object is filled when it is built and never afterwards
+        for (m, st, f, c) in config_mutators(repo, s):
+            r2.fail_fn(f, c, "configuration changed after construction by %s" % m.name,
+                       "%s calls %s, which stores into the configuration object (%s): what one call derives there is seen by every later call "
+                       "on this scheme object and by nobody who builds the scheme from the same dict" % (f.qual, m.qual, short(st)))
+        r2.ok()
         # _Trap/_Search/... assign no attribute of self at all (also not via setattr())
         for mname in ("_Trap", "_Search", "_Enc", "_Gen", "KeyGen", "EDBSetup", "TokenGen", "Search"):
             fi = s.cls.methods.get(mname)
